@@ -368,7 +368,7 @@ def compaction_case(args) -> List[Tuple[str, str]]:
             if x < 0.45:
                 return r.choice([None, True, False])
             if x < 0.75 or depth > 2:
-                return "".join(r.choice("aé✓😀 \n\r\t\"\\/\x00\x7fß") for _ in range(r.randrange(0, 12)))
+                return "".join(r.choice("aé✓😀 \n\r\t\"\\/\x00\x7fß\u2028\u2029\x85\x0b\x0c\x1c\x1d\x1e") for _ in range(r.randrange(0, 12)))
             if x < 0.88:
                 return [val(depth + 1) for _ in range(r.randrange(0, 4))]
             return {r.choice(["b", "a", "é", "ms", "now", "", "z.z"]): val(depth + 1) for _ in range(r.randrange(0, 4))}
@@ -391,7 +391,11 @@ def compaction_case(args) -> List[Tuple[str, str]]:
             fails.append(("CompactionPreservesRecords", f"stray files after rewrite: {extra}"))
         if data and not data.endswith(b"\n") or b"\r" in data:
             fails.append(("OneCompleteLinePerRecord", "rewritten file is not LF-terminated / contains CR"))
-        got = [json.loads(x.decode("utf-8")) for x in data.split(b"\n") if x]
+        try:
+            got = _parse_lines(data)
+        except ValueError as e:
+            fails.append(("OneCompleteLinePerRecord", f"{stream} CI={ci}: rewritten file has a line that is not a complete JSON document ({e}); {len(recs)} records written"))
+            return fails
         want = [normalize_for_identity(stream, copy_of([x])[0]) for x in recs]
         if json.dumps(got, sort_keys=True) != json.dumps(want, sort_keys=True):
             bad = next((i for i, (a, b) in enumerate(zip(got, want)) if json.dumps(a, sort_keys=True) != json.dumps(b, sort_keys=True)), min(len(got), len(want)))
@@ -411,11 +415,15 @@ def compaction_case(args) -> List[Tuple[str, str]]:
             L.append_jsonl(st2, copy_of([x])[0])
         p2 = os.path.join(work, st2)
         if recs:
-            with open(p2, "rb") as f:
-                appended = [json.loads(x.decode("utf-8")) for x in f.read().split(b"\n") if x]
-            L.rewrite_jsonl(st2, appended)
-            with open(p2, "rb") as f:
-                again = [json.loads(x.decode("utf-8")) for x in f.read().split(b"\n") if x]
+            try:
+                with open(p2, "rb") as f:
+                    appended = _parse_lines(f.read())
+                L.rewrite_jsonl(st2, appended)
+                with open(p2, "rb") as f:
+                    again = _parse_lines(f.read())
+            except ValueError as e:
+                fails.append(("OneCompleteLinePerRecord", f"{st2}: appended-then-compacted file has a line that is not a complete JSON document ({e})"))
+                return fails
             if json.dumps(again, sort_keys=True) != json.dumps(appended, sort_keys=True) or len(again) != len(recs):
                 fails.append(("CompactionPreservesRecords", f"{st2}: records appended then compacted differ"))
         return fails
@@ -429,6 +437,10 @@ def compaction_case(args) -> List[Tuple[str, str]]:
         else:
             os.environ["CI"] = saved_ci
         shutil.rmtree(work, ignore_errors=True)
+
+
+def _parse_lines(data: bytes):
+    return [json.loads(x.decode("utf-8")) for x in data.split(b"\n") if x]
 
 
 def copy_of(x):
